@@ -112,6 +112,21 @@ class SymArray(real_np.ndarray):
     def tolist(self):
         return real_np.asarray(self).tolist()
 
+    def realise(self):
+        """native array of the nominal dtype; symbolic entries are realised (forks per feasible value)"""
+        A = real_np.asarray(self)
+        out = real_np.zeros(A.shape, dtype=self._nom)
+        for idx in real_np.ndindex(*A.shape):
+            e = A[idx]
+            out[idx] = int(e) if isinstance(e, (SV, SB)) else e
+        return out
+
+    def tobytes(self, *a, **k):
+        return self.realise().tobytes(*a, **k)
+
+    def __bytes__(self):
+        return self.tobytes()
+
 
 def _cmp(a, o, f):
     A = real_np.asarray(a)
